@@ -110,6 +110,28 @@ CHECKS["C05"] = dict(
     design="§7 C05",
 )
 
+CHECKS["C06"] = dict(
+    text=("Lean: deleting the rows with a null (negative) code changes no group's reduction (from the kernel contract); a multi-key row gets the null code iff "
+          "ANY component is null (mixed-radix theorem); for the cumulative loop, rolling sum and the EMA loop shape: the output at a non-null-key row is "
+          "unchanged by deleting the null-key rows (dropNull_at_rank rank lemma + prefix theorems), and a null-key row receives a marker that depends on no "
+          "other row; the obligation all_guards_present ties this to the `key < 0` guards of the current source (extracted by the translator for nine loops). "
+          "Metamorphic correspondence: every public operation (reductions, transform, cumulative, rolling, shift/diff, EMA, head/tail/nth, groups, "
+          "group_nearby_members) on data with nulls in any key position vs the same data with those rows deleted; constancy of the marker."),
+    note="Rolling min/max/shift/diff and row selection are covered at the model level by their own properties (C09, C15) and here by the metamorphic run.",
+    technique="Lean 4 proof (corollaries of kernel contract / prefix theorems via a rank lemma; source guard facts) + metamorphic differential testing",
+    design="§7 C06",
+)
+CHECKS["C07"] = dict(
+    text=("Lean: transform_eq_lookup - the transform output has one entry per input row in input order; a row with a valid code gets the per-group definition "
+          "over the selected rows of its group, a row with a null key indexes (numpy wrap-around of -1) the extra trailing slot, which no row writes and which "
+          "therefore holds the neutral value (untouched_slot_neutral); groups without a selected row likewise; container rule as decision logic. "
+          "Correspondence: transform=True vs the same call with transform=False re-broadcast by the harness, for all reductions incl. var/std/median/apply, "
+          "contiguous / chunk-factorized / pre-chunked arrow keys, numpy / indexed pandas / polars values, masks."),
+    note="The public glue (index restoration, container conversion, unification of chunked codes before indexing) is tied by correspondence; size() has no values input, so no container/index rule is demanded for it.",
+    technique="Lean 4 proof (lookup theorem over the kernel contract) + metamorphic differential testing against the non-transform result",
+    design="§7 C07",
+)
+
 NOT_APPLICABLE: list[dict] = []
 
 
